@@ -8,6 +8,7 @@ import (
 	"verif/harness/internal/c01"
 	"verif/harness/internal/c05"
 	"verif/harness/internal/c08"
+	"verif/harness/internal/c14"
 )
 
 func main() {
@@ -20,6 +21,8 @@ func main() {
 		os.Exit(c01.Main(os.Args[2:]))
 	case "c08":
 		os.Exit(c08.Main(os.Args[2:]))
+	case "c14":
+		os.Exit(c14.Main(os.Args[2:]))
 	case "c05":
 		os.Exit(c05.Main(os.Args[2:]))
 	}
